@@ -7,5 +7,6 @@ import (
 	_ "verifsim/worlds/mesh"
 	_ "verifsim/worlds/mulgadgets"
 	_ "verifsim/worlds/otpair"
+	_ "verifsim/worlds/stream"
 	_ "verifsim/worlds/twopc"
 )
